@@ -380,7 +380,7 @@ def generate(ctx):
             continue
         cubic_hex = {Gl.system, Gr.system} & {"cubic"} and {Gl.system, Gr.system} & {"trigonal", "hexagonal"}
         for _ in range(per * (2 if cubic_hex and ctx.tier != 'quick' else 1)):
-            shape = [(1,), (2,), (1, 2), (2, 1)][rng.integers(4)]
+            shape = [(1,), (2,), (1, 2), (2, 1), (2, 3), (3, 2), (2, 2, 2)][rng.integers(7)]
             n = int(np.prod(shape))
             q = [GQ.unit_quat(rng)[0] for _ in range(n)]
             if region_defined(Gl, Gr):
